@@ -23,3 +23,64 @@ CHECKS["C06"] = dict(
     assumptions=["string payloads are a position-dependent byte pattern, not all 256^n contents (the encoder copies payload bytes without looking at them)",
                  "reference encoder ref/cbor.hpp (RFC 8949 preferred serialisation) is the trusted oracle"],
 )
+
+CHECKS["C12"] = dict(
+    level="model_checking", engine="E-HIST",
+    technique="explicit-state model checking of the implementation: every API history up to a depth bound executed on the real exporter in lockstep with a reference state machine",
+    level_text="All operation histories over an 11-operation alphabet (storable/unstorable records, repeated address-event keys, explicit block writes, rotation, parameter switches incl. an out-of-range one) up to the depth bound are executed on the real CdnsExporter for 24 configurations; after every step return-value sign and all counters are compared with the reference model, at the end every output is parsed independently and compared block by block (sizes, order, conservation).",
+    level_note="Trusted: harness/model.hpp (reference state machine), ref/ parser. Histories deeper than the bound and max_block_items > 3 are outside the claim (the block-full rule only compares three sizes with the maximum).",
+    stages=[dict(harness="hist", variant="plain", args=["--mode", "flush"])],
+    rule="stateless DFS: for each of 24 configurations (max_block_items {0,1,2,3}x{1,2}, hints {all, AEC+MM off, QR time/port only}) every history of length 0..D over the alphabet; a history is non-trivial if it has >= 1 operation; each is distinct by construction",
+    bound_quick="every history of length <= 5 (11^5 per configuration)", bound_thorough="every history of length <= 6",
+    assumptions=["the reference model (harness/model.hpp) states the intended buffering contract", "record contents are drawn from a fixed pool (7 QR, 3 AEC, 4 MM shapes)"],
+)
+
+_HIST_NOTE = "Trusted: harness/model.hpp (reference state machine written from the API documentation and RFC 8618 hint bits), ref/ (independent strict CBOR parser + RFC 8618 validator/interpreter, self-tested by setup). Histories deeper than the bound and record shapes outside the pools are outside the claim."
+
+CHECKS["C13"] = dict(
+    level="model_checking", engine="E-HIST",
+    technique="explicit-state model checking of the implementation: every API history (incl. rotations to real files and descriptors) up to a depth bound, outputs snapshotted at each rotation and parsed independently",
+    level_text="All histories over {buffer_qr x2, buffer_aec, buffer_mm, write_block, rotate(new,export), rotate(new,no export), rotate(onto the first name again), add_block_parameters, set_active 0/1} up to the depth bound run on the real exporter writing to real named files and real descriptors (plain, gzip, xz). Each output closed by a rotation is snapshotted at that moment, must be empty or a complete valid file whose preamble holds every parameter set its blocks name, must not change afterwards, and the concatenated record stream must equal the model's.",
+    level_note=_HIST_NOTE + " Histories violating the documented caller duty (using a parameter set added after the current output's header before rotating) are pruned by the model, not reported.",
+    stages=[dict(harness="hist", variant="plain", args=["--mode", "rotate"]),
+            dict(harness="hist", variant="plain", args=["--mode", "rotate-gz"], prefix="gz_"),
+            dict(harness="hist", variant="plain", args=["--mode", "rotate-xz"], prefix="xz_")],
+    rule="stateless DFS over an 11-operation alphabet x 2 configurations x {named file, descriptor} x {plain, gzip, xz}; every history of length 0..D; non-trivial = at least one operation",
+    bound_quick="plain: length <= 4; gzip: <= 3; xz: <= 2", bound_thorough="plain: length <= 5; gzip: <= 4; xz: <= 3",
+    assumptions=["name-created exporters are rotated to names, descriptor-created ones to descriptors (DESIGN 8.2)", "files live on tmpfs (/dev/shm)"],
+)
+
+CHECKS["C01"] = dict(
+    level="model_checking", engine="E-HIST",
+    technique="explicit-state model checking of the implementation: every buffering history up to a depth bound, each output compared three ways (model / library reader / independent RFC 8618 reader)",
+    level_text="Histories over 16 operations (6 query/response shapes incl. a fully populated one with all eight RR lists, 3 address-event keys, 3 malformed messages, statistics variants, write_block, parameter switches, rotation) x configurations (4 hint sets x ticks_per_second {1,1e3,1e6,1e9} x max_block_items {1,2,3,10000} x 2 parameter sets) are executed; the file is read back by CdnsReader+read_generic_* and by the independent interpreter and both must equal the model's expectation record for record (timestamps to the tick, AEC totals per key, statistics per block).",
+    level_note=_HIST_NOTE,
+    stages=[dict(harness="hist", variant="plain", args=["--mode", "roundtrip"])],
+    rule="stateless DFS, every history of length 0..D per configuration; non-trivial = at least one operation; distinct by construction",
+    bound_quick="length <= 3 over 16 ops, 19 configurations", bound_thorough="length <= 4, 64 configurations",
+    assumptions=["statistics passed together with an AEC/MM that other_data_hints reject are ignored (model follows the code; the property text is silent)"],
+)
+
+CHECKS["C02"] = dict(
+    level="model_checking", engine="E-HIST",
+    technique="explicit-state model checking of the implementation: every API history incl. present-but-empty arguments up to a depth bound; every closed output strict-parsed and schema-validated by an independent reader",
+    level_text="Every closed output of every explored history must be exactly one well-formed CBOR item that validates against the RFC 8618 schema (declared counts, mandatory members, index closure, parameter-set closure); outputs without a block must have zero uncompressed bytes.",
+    level_note=_HIST_NOTE,
+    stages=[dict(harness="hist", variant="plain", args=["--mode", "wellformed"])],
+    rule="stateless DFS over 13 operations incl. BlockStatistics() (present but empty) on QR/AEC/MM calls, unstorable records, rotations, parameter-set additions x 3 configurations (max_block_items 0/2/10000)",
+    bound_quick="length <= 4", bound_thorough="length <= 5",
+    assumptions=["CDDL '+' (non-empty) cardinalities are not enforced (DESIGN 8.2)"],
+)
+
+CHECKS["C10"] = dict(
+    level="model_checking", engine="E-HIST",
+    technique="explicit-state model checking of the implementation: per-call byte counts summed along every explored history and compared with the real output size",
+    level_text="(a) every encoder call in the E-ENC exploration returns the length of the bytes it appended; (b) along every exporter history the sum of returned counts since an output was opened equals that output's uncompressed size (+1 for the break written by destruction).",
+    level_note=_HIST_NOTE,
+    stages=[dict(harness="enc", variant="asan", prefix="enc_"),
+            dict(harness="hist", variant="plain", args=["--mode", "counts"])],
+    rule="E-ENC traces (see C06) + stateless DFS over 10 exporter operations x {memory, gzip, descriptor, named file} sinks",
+    bound_quick="exporter histories of length <= 3; encoder: as C06 quick", bound_thorough="exporter histories of length <= 4 (+xz, gzip file); encoder: as C06 thorough",
+    assumptions=[],
+)
+ENGINES.append(dict(name="E-HIST", path="harness/hist.cpp", serves_properties=["C01", "C02", "C10", "C12", "C13"], kind_free_text="stateless exhaustive enumeration of API histories on the real exporter in lockstep with a reference model"))
